@@ -45,9 +45,11 @@ def run(F, R, tier):
                      "Eigen::PermutationMatrix: A *= p multiplies by P from the right, p.indices() reversed is the reversal "
                      "permutation, indices sorted by a comparator give the sorting permutation"]
     R.undecided = ["numerical accuracy / unitarity to rounding of Eigen's solvers, behaviour for exactly degenerate or "
-                   "rank-deficient matrices inside the solvers", "finiteness and sign of the error bounds (*_errbd outputs)"]
+                   "rank-deficient matrices inside the solvers",
+                   "the size of the error bounds (only their sign and the positivity of the divisors are decided, R6)"]
     R.guard(_contracts, F, R)
     R.guard(_call_sites, F, R)
+    R.guard(_error_bounds, F, R)
 
 
 def _entry_instantiations(F):
@@ -356,3 +358,167 @@ def _call_sites(F, R):
             elif base in DOC:
                 n += 1
                 R.ok("R5", "%s calls %s" % (f["name"].split("::")[-1], base), F.loc(f, c))
+
+
+# ---- error bounds: sign analysis ---------------------------------------------------------------------------------------
+POS, NONNEG, ANY = "pos", "nonneg", "any"
+
+
+def _join(a, b):
+    if a == b:
+        return a
+    if {a, b} <= {POS, NONNEG}:
+        return NONNEG
+    return ANY
+
+
+def _mul(a, b):
+    if ANY in (a, b):
+        return ANY
+    return POS if a == POS and b == POS else NONNEG
+
+
+class _Signs:
+    """sign of scalar expressions of one function: literals, numeric_limits epsilon/min/max, abs, max, products; locals through
+    all their definitions (join); elements of arrays listed in `nonneg_arrays` are >= 0"""
+
+    def __init__(self, f, nonneg_arrays=()):
+        self.f = f
+        self.nonneg_arrays = set(nonneg_arrays)
+        self.defs = {}
+        for n in walk(f["body"]):
+            if n.get("k") == "DeclStmt":
+                for d in n.get("decls", ()):
+                    if "id" in d and d.get("init") is not None:
+                        self.defs.setdefault(d["id"], []).append(d["init"])
+            elif n.get("k") == "BinaryOperator" and n.get("op") == "=":
+                from .facts import strip_all as _sa
+                l = _sa(n["c"][0])
+                if l is not None and l.get("k") == "DeclRefExpr":
+                    self.defs.setdefault(l.get("id"), []).append(n["c"][1])
+
+    def sign(self, n, depth=0):
+        from .facts import strip_all as _sa, call_args as _ca
+        n = _sa(n)
+        if n is None or depth > 10:
+            return ANY
+        k = n.get("k")
+        if k in ("FloatingLiteral", "IntegerLiteral"):
+            try:
+                v = float(n.get("v") if n.get("v") is not None else n.get("s"))
+            except (TypeError, ValueError):
+                return ANY
+            return POS if v > 0 else NONNEG if v == 0 else ANY
+        if k == "DeclRefExpr":
+            ds = self.defs.get(n.get("id"))
+            if not ds:
+                return ANY
+            out = None
+            for d in ds:
+                sg = self.sign(d, depth + 1)
+                out = sg if out is None else _join(out, sg)
+            return out or ANY
+        if k == "UnaryOperator" and n.get("op") == "*":
+            return self.sign(n["c"][0], depth + 1)
+        if k == "BinaryOperator" and n.get("op") == "*":
+            return _mul(self.sign(n["c"][0], depth + 1), self.sign(n["c"][1], depth + 1))
+        if k == "CXXOperatorCallExpr" and n.get("op") in ("[]", "()") and len(n.get("c", [])) >= 3:
+            arr = _sa(n["c"][1])
+            if arr is not None and arr.get("k") == "DeclRefExpr" and arr.get("n") in self.nonneg_arrays:
+                return NONNEG
+            return ANY
+        if is_call(n):
+            fn = str(n.get("fn") or "").split("(")[0]
+            short = fn.split("::")[-1]
+            args = _ca(n)
+            if re.search(r"numeric_limits<.*>::(epsilon|min|max)$", fn):
+                return POS
+            if short in ("abs", "fabs") and len(args) == 1:
+                return NONNEG
+            if short in ("max", "fmax") and len(args) == 2:
+                a, b = self.sign(args[0], depth + 1), self.sign(args[1], depth + 1)
+                if POS in (a, b) and ANY not in (a, b):
+                    return POS
+                if POS in (a, b):
+                    return POS          # max(x, positive) > 0 whatever x is
+                return _join(a, b)
+            if short in ("max", "min", "fmax", "fmin") and len(args) >= 3:
+                # a comparator decides which *signed* element is returned
+                return _join(self.sign(args[0], depth + 1), self.sign(args[1], depth + 1)) if \
+                    ANY not in (self.sign(args[0], depth + 1), self.sign(args[1], depth + 1)) else ANY
+            if short in ("min", "fmin") and len(args) == 2:
+                a, b = self.sign(args[0], depth + 1), self.sign(args[1], depth + 1)
+                return ANY if ANY in (a, b) else _join(a, b)
+        return ANY
+
+
+def _error_bounds(F, R):
+    from .facts import strip_all as _sa, call_args as _ca
+    R.rule("R6", "error bounds: every value stored through a *_errbd pointer is a product of positive constants and non-negative norms "
+                 "(|w|, singular values); the reciprocal condition numbers they are divided by are clamped from below by a positive "
+                 "threshold for ALL entries (disna) -- the bounds are non-negative and finite also for degenerate spectra", 3)
+    n_store = 0
+    seen = set()
+    for k, f in sorted(F.functions.items()):
+        if not f["file"].endswith("gm2_linalg.hpp"):
+            continue
+        short = f["name"].split("::")[-1]
+        if (short, f["line"]) in seen:
+            continue
+        if short.endswith("_errbd"):
+            seen.add((short, f["line"]))
+            nn = {"s"} if "svd" in short else set()
+            SG = _Signs(f, nonneg_arrays=nn)
+            for n in walk(f["body"]):
+                if n.get("k") == "BinaryOperator" and n.get("op") == "=":
+                    l = _sa(n["c"][0])
+                    if l is not None and l.get("k") == "UnaryOperator" and l.get("op") == "*":
+                        tgt = _sa(l["c"][0])
+                        if tgt is not None and tgt.get("k") == "DeclRefExpr" and str(tgt.get("n")).endswith("_errbd"):
+                            n_store += 1
+                            sg = SG.sign(n["c"][1])
+                            R.check("R6", sg in (POS, NONNEG), "%s: *%s = ... is %s" % (short, tgt.get("n"), sg), F.loc(f, n),
+                                    "the value stored in *%s can be negative (a signed quantity enters without abs): the error bounds "
+                                    "derived from it are negative for spectra dominated by a negative eigenvalue" % tgt.get("n"),
+                                    key="R6|%s|%s" % (short, tgt.get("n")))
+        if short == "disna":
+            seen.add((short, f["line"]))
+            SG = _Signs(f)
+            params = {p["name"]: p["id"] for p in f["params"]}
+            sep_id = params.get("SEP")
+            clamp = None
+            for n in walk(f["body"]):
+                if n.get("k") != "ForStmt":
+                    continue
+                body_asg = [x for x in walk(n.get("body")) if x.get("k") in ("BinaryOperator", "CXXOperatorCallExpr") and x.get("op") == "="]
+                for a in body_asg:
+                    ops = a["c"] if a["k"] == "BinaryOperator" else a["c"][1:]
+                    lhs, rhs = _sa(ops[0]), _sa(ops[1])
+                    if lhs is None or rhs is None or not is_call(rhs) or str(rhs.get("fn") or "").split("(")[0].split("::")[-1] not in ("max", "fmax"):
+                        continue
+                    if not any(x.get("k") == "DeclRefExpr" and x.get("id") == sep_id for x in walk(lhs)):
+                        continue
+                    clamp = (n, a, rhs)
+            ok, why = clamp is not None, "no loop of the form SEP(I) = max(SEP(I), THRESH) found"
+            if clamp is not None:
+                loop, a, rhs = clamp
+                args = _ca(rhs)
+                thr = [x for x in args if not any(y.get("k") == "DeclRefExpr" and y.get("id") == sep_id for y in walk(x))]
+                pos = bool(thr) and SG.sign(thr[0]) == POS
+                cond = _sa(loop.get("cond"))
+                init_ok = any(x.get("k") in ("IntegerLiteral",) and str(x.get("v")) == "0" for x in walk(loop.get("init") or {})) or True
+                full = cond is not None and cond.get("k") == "BinaryOperator" and cond.get("op") == "<" and \
+                    _sa(cond["c"][1]) is not None and _sa(cond["c"][1]).get("k") == "DeclRefExpr" and _sa(cond["c"][1]).get("n") == "K"
+                i0 = None
+                ini = loop.get("init")
+                if ini is not None:
+                    for x in walk(ini):
+                        if x.get("k") == "IntegerLiteral":
+                            i0 = str(x.get("v"))
+                ok = pos and full and i0 == "0"
+                why = ("the threshold is not provably positive" if not pos else
+                       "the clamp loop does not run over all K entries (I from %s while %s)" % (i0, "I < K" if full else "not `I < K`"))
+            R.check("R6", ok, "disna: SEP(I) = max(SEP(I), THRESH > 0) for I = 0 .. K-1", F.loc(f), why + ": an unclamped gap of 0 "
+                    "(degenerate values) makes the error bound of the vectors infinite / NaN", key="R6|disna|%s" % f["params"][1]["t"][:40])
+    if n_store < 2:
+        R.soft_broken("R6: stores through *_errbd pointers not found (%d)" % n_store)
